@@ -115,7 +115,13 @@ func calmEval(r *rec) string {
 	}
 	var out opOut
 	rt.CalmReset()
-	callOp(a, r.op, obj, nil, &out)
+	if libSpawns {
+		if why := rt.RunCalm(func() { callOp(a, r.op, obj, nil, &out) }); why != "" {
+			out.res = "abort:" + why
+		}
+	} else {
+		callOp(a, r.op, obj, nil, &out)
+	}
 	after := ""
 	if obj != nil {
 		after = a.Bytes(obj)
